@@ -123,6 +123,30 @@ func (P *Prog) verifyFunc(fn *ssa.Function, c *Contract, cfgVal int, hasCfg bool
 		x.assumeGlobal(x.evalClause(ce, r, res.Name))
 	}
 	x.cover(st, "requires")
+	// watch list available to every obligation: parameters and debugging expressions in the pre-state
+	for _, p := range fn.Params {
+		var fl []*Term
+		flatten(x.params[p.Name()], &fl)
+		for k, t := range fl {
+			x.watch = append(x.watch, WatchTerm{fmt.Sprintf("%s#%d", p.Name(), k), t})
+		}
+	}
+	for _, es := range debugEvalExprs {
+		func() {
+			defer func() { recover() }()
+			e, err := parseCExpr(es)
+			if err != nil {
+				return
+			}
+			var fl []*Term
+			flatten(ce.eval(e), &fl)
+			for k, t := range fl {
+				x.watch = append(x.watch, WatchTerm{fmt.Sprintf("pre:%s#%d", es, k), t})
+			}
+		}()
+	}
+	preWatch := len(x.watch)
+	_ = preWatch
 	// run
 	final, results := x.runBody(fn, st)
 	// postconditions
@@ -138,14 +162,7 @@ func (P *Prog) verifyFunc(fn *ssa.Function, c *Contract, cfgVal int, hasCfg bool
 		}
 	}
 	x.cover(final, "return")
-	// watch list: parameters, results and any debugging expressions
-	for _, p := range fn.Params {
-		var fl []*Term
-		flatten(x.params[p.Name()], &fl)
-		for k, t := range fl {
-			x.watch = append(x.watch, WatchTerm{fmt.Sprintf("%s#%d", p.Name(), k), t})
-		}
-	}
+	// watch list: results and any debugging expressions (post-state)
 	for i, r := range results {
 		var fl []*Term
 		flatten(r, &fl)
